@@ -8,12 +8,14 @@ use serde_json::json;
 pub mod c01;
 pub mod c04;
 pub mod c07;
+pub mod c08;
 
 pub fn run(prop: &str, tier: &str) -> ! {
 	match prop {
 		"C01" => c01::run(tier),
 		"C04" => c04::run(tier),
 		"C07" => c07::run(tier),
+		"C08" => c08::run(tier),
 		_ => machinery_error(&format!("unknown property {}", prop)),
 	}
 }
